@@ -13,7 +13,7 @@
    and the timer can fire in between).
 
    `fixed_S2` selects the code after `fix: re-arm the batch timer when the age-limit commit fails`
-   (true) or the code before it (false). *)
+   (true) or the code before it (false); `fixed_S28` likewise for `fix: crdt batch worker does not commit an empty batch`. *)
 From V Require Import Base.Common.
 Open Scope N_scope.
 
@@ -50,10 +50,12 @@ Inductive bev (A : Type) :=
 | Take (add_ok : bool)        (* case batchItem := <-css.batchItemCh, up to Add/Rm *)
 | SizeCommit (ok : bool)      (* Commit after reaching MaxBatchSize, then stop-and-drain *)
 | Fire                        (* the runtime timer expires *)
-| OnTimer (ok : bool).        (* case <-batchTimer.C: Commit *)
-Arguments Enq {A}. Arguments Take {A}. Arguments SizeCommit {A}. Arguments Fire {A}. Arguments OnTimer {A}.
+| OnTimer (ok : bool)         (* case <-batchTimer.C: Commit (nothing when the batch is empty, fix S28) *)
+| Reject (i : A).             (* LogPin refuses an operation that cannot be serialised (fix S29): an error, no effect *)
+Arguments Enq {A}. Arguments Take {A}. Arguments SizeCommit {A}. Arguments Fire {A}. Arguments OnTimer {A}. Arguments Reject {A}.
 
-Record bcfg := mk_bcfg { qcap : N; maxsize : N; fixed_S2 : bool }.
+(* fixed_S28: the code after `fix: crdt batch worker does not commit an empty batch` (true) or before it (false) *)
+Record bcfg := mk_bcfg { qcap : N; maxsize : N; fixed_S2 : bool; fixed_S28 : bool }.
 
 Definition binit {A} : bst A := mk_bst [] 0 t_idle [] [] [] PIdle false [] [].
 
@@ -92,11 +94,15 @@ Definition bstep {A} (c : bcfg) (s : bst A) (e : bev A) : bst A :=
       | PIdle =>
           if t_chan (tm s) then
             let t1 := t_recv (tm s) in
+            if fixed_S28 c && (cur s =? 0)    (* if batchCurSize == 0 { continue }: the timer was armed by an item whose Add/Rm failed *)
+            then mk_bst (queue s) (cur s) t1 (pend s) (committed s) (tlog s) PIdle false (accepted s) (refused s)
+            else
             if ok then mk_bst (queue s) 0 t1 [] (committed s ++ [pend s]) (tlog s) PIdle false (accepted s) (refused s)
             else mk_bst (queue s) (cur s) (if fixed_S2 c then t_reset t1 else t1) (pend s) (committed s) (tlog s) PIdle false (accepted s) (refused s)
           else s
       | PCommit => s
       end
+  | Reject i => mk_bst (queue s) (cur s) (tm s) (pend s) (committed s) (tlog s) (pc s) (blocked s) (accepted s) (refused s ++ [i])
   end.
 
 Definition brun {A} (c : bcfg) (es : list (bev A)) : bst A := fold_left (bstep c) es binit.
